@@ -30,7 +30,7 @@ func init() {
 		Run: c19Run,
 		Floors: func(m *Merged, tier string) []string {
 			var u []string
-			for _, c := range []string{"version_pairs", "version_pairs_carry", "version_pairs_count_differs", "version_engine_comparisons", "version_rejections", "date_encodings", "date_pairs_close", "date_same_instant_pairs", "date_rejections", "date_leap_days"} {
+			for _, c := range []string{"version_pairs", "version_pairs_carry", "version_pairs_count_differs", "version_engine_comparisons", "version_rejections", "date_encodings", "date_pairs_close", "date_same_instant_pairs", "date_rejections", "date_leap_days", "date_noncanonical_texts"} {
 				if m.C(c) == 0 {
 					u = append(u, c+" = 0")
 				}
@@ -423,6 +423,28 @@ func c19Dates(w *W, r *rand.Rand, idx int) {
 			// a layout with the fields in another order
 			txt := fmt.Sprintf("%02d:%02d:%02d %02d.%02d.%04d", t.h, t.mi, t.s, t.d, t.mo, t.y)
 			encode(fmt.Sprintf("(%s \"%s\" \"15:04:05 02.01.2006\")", a, txt), t.unix(), "custom layout "+txt)
+			// texts the layout language accepts although they are not what formatting with the layout would print:
+			// a zero offset written +00:00/-00:00, a fraction of a second after the seconds field (dropped), month
+			// names in any letter case, a weekday name that is not checked against the date
+			zero := []string{"+00:00", "-00:00"}[r.Intn(2)]
+			rfc := fmt.Sprintf("%04d-%02d-%02dT%02d:%02d:%02d", t.y, t.mo, t.d, t.h, t.mi, t.s)
+			encode(fmt.Sprintf("(%s \"%s%s\" \"2006-01-02T15:04:05Z07:00\")", a, rfc, zero), t.unix(), "RFC3339 with zero offset "+zero)
+			frac := []string{".5", ".250", ".999999999", ",75", ".000"}[r.Intn(5)]
+			encode(fmt.Sprintf("(%s \"%s%sZ\" \"2006-01-02T15:04:05Z07:00\")", a, rfc, frac), t.unix(), "RFC3339 with fraction "+frac)
+			if a != "t_time" {
+				encode(fmt.Sprintf("(%s \"%s%s\")", a, dttxt, frac), t.unix(), "default layout with fraction "+frac)
+			}
+			mon := []string{"Jan", "Feb", "Mar", "Apr", "May", "Jun", "Jul", "Aug", "Sep", "Oct", "Nov", "Dec"}[t.mo-1]
+			switch r.Intn(3) {
+			case 0:
+				mon = strings.ToUpper(mon)
+			case 1:
+				mon = strings.ToLower(mon)
+			}
+			wd := []string{"Mon", "Tue", "Wed", "Thu", "Fri", "Sat", "Sun"}[r.Intn(7)]
+			named := fmt.Sprintf("%s %s %d %04d %02d:%02d:%02d", wd, mon, t.d, t.y, t.h, t.mi, t.s)
+			encode(fmt.Sprintf("(%s \"%s\" \"Mon Jan 2 2006 15:04:05\")", a, named), t.unix(), "named month/weekday "+named)
+			w.Count("date_noncanonical_texts", 4)
 		}
 	}
 	// order preservation over all pairs (and a sample inside the engine)
